@@ -164,6 +164,12 @@ CATALOGUE = {
     "boxed-optional-index-of": ["hay: [int...] = [4, 5]", "io = hay.index_of(5)", "print typeof (io * 2)", "print io * 2"],
     "boxed-optional-in-list": ["bo = \"5\".parse_int()", "lo: [int?...] = [bo]", "print typeof lo[0]", "print lo[0]"],
     "boxed-optional-or": ["bo = \"x\".parse_int()", "print typeof ((bo) or 3)", "print (bo) or 3"],
+    "boxed-optional-or-present": ["bo = \"5\".parse_int()", "print typeof ((bo) or 3)", "print (bo) or 3"],
+    "boxed-optional-or-present-stored": ["bo = \"5\".parse_int()", "st = (bo) or 3", "print typeof st", "print st", "print typeof (st + 1)", "print st + 1"],
+    "boxed-optional-or-direct": ["hay: [int...] = [4, 5]", "print typeof ((hay.index_of(5)) or 9)", "print (hay.index_of(5)) or 9"],
+    "boxed-optional-or-as-map-key": ["hay: [int...] = [4, 5]", "mk2 = map[int, int] {(hay.index_of(5)) or 9: 1, 1: 2}", "print typeof mk2.len()", "print mk2.len()"],
+    "boxed-optional-or-in-list": ["hay: [int...] = [4, 5]", "lo2: [int...] = [(hay.index_of(5)) or 9]", "print typeof lo2[0]", "print lo2[0]"],
+    "boxed-optional-unwrap-into": ["uq: int? = nil", "if uq ?= \"5\".parse_int() {", "\tprint typeof (get uq)", "\tprint get uq", "}"],
     "boxed-optional-get": ["bo = \"5\".parse_int()", "print typeof (get bo)", "print get bo"],
     "fixed-list-index-types": ["const fx = [1, \"a\", 2.5]", "print typeof fx[0]", "print fx[0]", "print typeof fx[1]", "print fx[1]"],
     "fixed-list-last": ["const fx = [1, \"a\", 2.5]", "print typeof fx[2]", "print fx[2]"],
